@@ -18,7 +18,7 @@ import mutscreen as M
 import gen_src as G
 
 DEPENDENTS = {"encode_varint": ["encode_varint", "prepend_compact_size", "add_magic_prefix"], "op_push_data": ["op_push_data", "push_integer"],
-              "schnorr_tagged_hash": ["tagged_hash"], "get_target_bits": ["block_header"], "txout_to_bytes": ["tx_parts", "tx_whole"], "txin_to_bytes": ["tx_parts", "tx_whole"], "witness_to_bytes": ["tx_whole"], "tx_to_bytes": ["tx_whole", "tx_ids"], "get_txid": ["tx_ids"], "get_hash": ["tx_ids"], "get_size": ["tx_ids"], "serialize_header": ["block_header"], "get_block_hash": ["block_header"], "tagged_hash": ["tagged_hash", "tapbranch_tagged_hash", "tapleaf_tagged_hash"]}
+              "schnorr_tagged_hash": ["tagged_hash"], "get_target_bits": ["block_header"], "txout_to_bytes": ["tx_parts", "tx_whole"], "txin_to_bytes": ["tx_parts", "tx_whole"], "witness_to_bytes": ["tx_whole"], "tx_to_bytes": ["tx_whole", "tx_ids"], "get_txid": ["tx_ids"], "segwit_digest": ["segwit_digest"], "get_hash": ["tx_ids"], "get_size": ["tx_ids"], "serialize_header": ["block_header"], "get_block_hash": ["block_header"], "tagged_hash": ["tagged_hash", "tapbranch_tagged_hash", "tapleaf_tagged_hash"]}
 ONLY = [a for a in sys.argv[1:] if not a.startswith("--") and not a.endswith(".json")]
 
 
@@ -26,6 +26,14 @@ def probes(qual, file=""):
     r = random.Random(5)
     if qual == "TxWitnessInput.to_bytes":
         return [([],), ([""],), (["aa"],), (["aa" * 72, "bb" * 33],), (["cc" * 252, "", "dd" * 253],), (["ee"] * 300,), (["ff" * 70000],)]
+    if qual == "Transaction.get_transaction_segwit_digest":
+        out = []
+        for nin, nout in ((1, 1), (2, 3), (3, 1), (2, 0)):
+            for idx in range(nin):
+                for ht in (1, 2, 3, 0x81, 0x82, 0x83):
+                    out.append((nin, nout, idx, ht, 5000 + idx))
+        out.append((2, 2, 5, 1, 7)); out.append((1, 1, 0, 1, 2 ** 63)); out.append((1, 1, 0, 2 ** 31, 7))
+        return out
     if qual in ("Transaction.get_txid", "Transaction._get_hash", "Transaction.get_size"):
         return [(1, 1, [["aa" * 72, "bb" * 33]], True), (2, 1, [[], ["cc"]], True), (1, 0, [[""]], False), (3, 2, [["aa"], [], ["bb", "cc"]], True), (2, 2, [], False)]
     if qual == "Transaction.to_bytes":
@@ -101,6 +109,12 @@ for args in T.probes(qual, file):
             r = schnorr.tagged_hash(*args)
         elif qual == "TxWitnessInput.to_bytes":
             r = transactions.TxWitnessInput(args[0]).to_bytes()
+        elif qual == "Transaction.get_transaction_segwit_digest":
+            nin, nout, idx, ht, amt = args
+            ins = [transactions.TxInput("{:064x}".format(i + 1), i * 7, script.Script([]), bytes([i, 0, 0, 255 - i])) for i in range(nin)]
+            outs = [transactions.TxOutput(1000 + i, script.Script(["OP_1", "bb" * (20 + i)])) for i in range(nout)]
+            tx = transactions.Transaction(ins, outs, has_segwit=True)
+            r = tx.get_transaction_segwit_digest(idx, script.Script(["OP_DUP", "cc" * 20, "OP_CHECKSIG"]), amt, ht)
         elif qual in ("Transaction.to_bytes", "Transaction.get_txid", "Transaction._get_hash", "Transaction.get_size"):
             nin, nout, wits, hs = args
             ins = [transactions.TxInput("{:064x}".format(i + 1), i, script.Script(["aa" * (i - 3 * (i // 3))] if (i - 3 * (i // 3)) else [])) for i in range(nin)]
